@@ -323,6 +323,10 @@ def run(ctx):
     check_bounded(ctx, P)
     check_multi(ctx, P)
     check_init(ctx, P, "fiber_signal_init", [("fiber_signal", "waiter", 0)])
+    check_init(ctx, P, "fiber_unbounded_channel_init", [("fiber_unbounded_channel", "ready_signal", "param:signal")], calls=["mpsc_fifo_init"], rule="init.unbounded",
+               why="a channel that forgets its signal never wakes its sleeping receiver; one that keeps a stale signal raises somebody else's")
+    check_init(ctx, P, "fiber_unbounded_sp_channel_init", [("fiber_unbounded_sp_channel", "ready_signal", "param:signal")], calls=["spsc_fifo_init"], rule="init.sp",
+               why="as for the unbounded channel")
     from rules import check_zeroed_alloc
     check_zeroed_alloc(ctx, P, "fiber_bounded_channel_create", "bounded.create.zero", "the message slots of a new bounded channel",
                        "NULL marks a free / not yet written slot: on a stale non-NULL slot the sender yields for ever and the receiver sleeps on a signal "
